@@ -65,6 +65,15 @@ CHECKS = {
  "C21": dict(cat="exploration", tech="exhaustive bulk enumeration of every period x documented input spelling x output format for a year range; round trip; Python-vs-SQL differential",
    text="All valid periods of 1996-2032 (thorough 1900-2100) in every documented spelling and all four output formats: accepted, rendered as documented (or VTL error where the format cannot express the indicator), rendered value re-read to the same value, Python and SQL implementations agree; plus a sample of years 1-9999.",
    note="Paddings the docs do not show follow the month example of the same format; known finding for years below 1000.", ref="§3 C21"),
+ "C18": dict(cat="exploration", tech="differential property testing across input forms (CSV / string DataFrame / string Parquet / native DataFrame / native Parquet) over a labelled value catalogue + Hypothesis tables",
+   text="Every labelled spelling (valid, boundary, invalid, undocumented) of every component type as a cell of the same logical table in each input form: the outcome class and, when accepted, the results must be identical across forms.",
+   note="Native forms are only produced when every cell is the canonical spelling of a native value. Known findings: Integer strings from DataFrame/Parquet, time part lost from string Parquet.", ref="§3 C18"),
+ "C19": dict(cat="exploration", tech="property testing with a validity-predicate oracle (documented input formats + calendar) over a labelled value catalogue and Hypothesis tables with injected structural violations",
+   text="Each documented-invalid spelling / structural violation must raise a data-load or input-validation error under a pass-through and a projection script (separating load validation from output formatting); each documented-valid spelling must be accepted and returned as the value it denotes.",
+   note="Spellings the docs leave open are not asserted. Six known findings (period numbers beyond the calendar, Boolean 'yes', Date year < 1800, lenient Integer strings from DataFrames, unvalidated intervals, documented short Time forms rejected).", ref="§3 C19"),
+ "C20": dict(cat="exploration", tech="differential property testing: validate_dataset vs run() on the same generated inputs (value catalogue + structural violations), DataFrame and CSV",
+   text="validate_dataset raises exactly when run('R <- DS_1;') rejects the input with a VTL input error, for every catalogue spelling and for tables with structural violations.",
+   note="Purely an agreement check (no validity predicate). Known findings list the value classes on which the pandas validator and the DuckDB loader disagree.", ref="§3 C20"),
 }
 NOT_YET = "check not built yet in this session (work in progress, see DESIGN.md §5)"
 
